@@ -354,6 +354,13 @@ class AppProgram(object):
             if fail == "after_start":
                 rec["raised"] = "app:after_start"
                 raise RuntimeError("app failure after start_response")
+            for c in (chunks if p.get("write_first") else []):
+                rec["produced"] += len(c)
+                try:
+                    write(c)             # legal: some bytes through write(), the rest through the returned file wrapper
+                except BaseException as e:      # noqa
+                    rec["raised"] = "write:" + type(e).__name__
+                    raise
             if mode == "file":
                 f = open(data_file_path(), "rb", buffering=0)
                 f.seek(p.get("file_offset", 0))
